@@ -3,7 +3,7 @@
 stage 1  TLC (spec/HostMatch.tla, MC_HostMatch.tla) on three machines - every (entry, host) pair over the label
          alphabet, SAN lists of typed entries x CN x switch x api, pins under perturbation - checks that the
          repaired MATCHER (no deviation) satisfies RULES and that the code-shaped MATCHER (KnownDefects = D13
-         "ABORT", D14 "ACECASE") leaves RULES exactly on the recorded input classes; three further runs show that
+         "ABORT", D15 "ACECASE") leaves RULES exactly on the recorded input classes; three further runs show that
          the code-shaped MATCHER really breaks ListAcceptsStrict / ListRejectsForbidden / PairMatcherRejectsForbidden.
 stage 2  TLC emits, per entry, the must-accept / either host sets (sparse) and the hosts MATCHER accepts; per SAN
          list every case that is not must-reject; every perturbed pin with its verdict; the reject clauses used.
@@ -288,7 +288,7 @@ def _pair_shard(args):
                                       "code_accepts": sorted(acc)[:12]})
         return True
 
-    r = tlc.run("MC_HostMatch", cfg("PairsSpec", ["EmitPairs"], labels=plan["labels"], ml=plan["ml"], k=plan["k"], s=s),
+    r = tlc.run("MC_HostMatch", cfg("PairsSpec", ["EmitPairs"], labels=plan["labels"], ml=plan["ml"], k=plan["k"], s=s, kd=plan["kd"]),
                 workers=1, on_line=on_line, timeout=7200)
     bad, done = judge({"traces": st["traces"]}, plan["labels"], plan["ml"])
     st["verdicts"] = [(c, {"kind": "pair", "dn": syms_name(st["traces"][tid - 1]["dn"]), "host": h,
@@ -333,7 +333,7 @@ def _list_shard(args):
         got["recs"].extend(tlc.tagged_json(ln, "LS"))
         return True
 
-    r = tlc.run("MC_HostMatch", cfg("ListsSpec", ["EmitLists"], ms=plan["ms"], re=plan["re"], rh=plan["rh"], k=plan["k"], s=s), workers=1, on_line=on_line, timeout=7200)
+    r = tlc.run("MC_HostMatch", cfg("ListsSpec", ["EmitLists"], ms=plan["ms"], re=plan["re"], rh=plan["rh"], k=plan["k"], s=s, kd=plan["kd"]), workers=1, on_line=on_line, timeout=7200)
     return {"dom": got["dom"], "pending": got["recs"], "distinct": r.distinct,
             "rc": sorted({c for rec in got["recs"] for c in rec["rc"]})}
 
@@ -659,7 +659,7 @@ def run(rep):
                        "a bracketed literal handed to the raw match_hostname is not an IP host (latitude, HostMatch.tla "
                        "RefKind); a commonName never counts for an IP host"]
     nsh = 2 if quick else NSHARD
-    w1 = 4 if quick else "auto"
+    w1 = 2 if quick else "auto"      # tiny state spaces: a small JVM starts faster than 16 workers
     pair_plans = ([dict(labels="MCLabels14", ml=2), dict(labels="MCLabels6", ml=3)] if quick else
                   [dict(labels="MCLabels14", ml=3), dict(labels="MCLabels5", ml=4)])
     list_plan = dict(ms=2, re="MCEntriesQ", rh="MCHostsQ") if quick else dict(ms=3, re="MCEntries", rh="MCHosts")
@@ -699,12 +699,20 @@ def run(rep):
     jobs.append(("expect", "ListsSpec", "ListsSpec", small_list_plan, ["ListAcceptsStrict"], (), None, 1, '"*", "*"'))
     jobs.append(("expect", "ListsSpec", "ListsSpec", small_list_plan, ["ListRejectsForbidden"], (), None, 1, None))
 
+    # which of the recorded deviations does this tree still have?  The emitted MATCHER predictions follow it (so a
+    # fix: commit leaves no drift); the verdicts never depend on it.
+    dns = lambda *names: {"subjectAltName": tuple(("DNS", n) for n in names)}
+    present = [d for d, there in (("ABORT", not accepts("raw", dns("**.b", "a.b"), "a.b", False)),
+                                  ("ACECASE", accepts("raw", dns("XN--*.b"), "XN--a.b", False))) if there]
+    kd = {(): "NoDefects", ("ABORT",): "OnlyAbort", ("ACECASE",): "OnlyAceCase", ("ABORT", "ACECASE"): "AllDefects"}[tuple(present)]
+    rep.extra["recorded_deviations_present_in_tree"] = present
+
     with mp.Pool(NSHARD) as pool, ThreadPoolExecutor(len(jobs) + 1) as tp:
         s1 = [tp.submit(_tlc_job, j) for j in jobs]
         # ---- everything that does not depend on another result is submitted at once
-        pplans = [dict(plan, k=nsh) for plan in pair_plans]
+        pplans = [dict(plan, k=nsh, kd=kd) for plan in pair_plans]
         pair_f = [[pool.apply_async(_pair_shard, ((plan, s),)) for s in range(nsh)] for plan in pplans]
-        lplan = dict(list_plan, k=nsh)
+        lplan = dict(list_plan, k=nsh, kd=kd)
         lemit_f = [pool.apply_async(_list_shard, ((lplan, s),)) for s in range(nsh)]
         nr, pr = (2400, 800) if quick else (96000, 2000)
         rlist_f = [pool.apply_async(_rand_list_shard, ((rep.seed * 100003 + i, pr),)) for i in range(nr // pr)]
